@@ -214,6 +214,12 @@ def r2Stat (d : Nat) (b : ColBatch) : Except Err Parts :=
     .ok [r.1, r.2.1, r.2.2, [(b.n : Q)]]
   else .error .value
 
+/-- the driver adapters of MeanSquaredError / R2Score append an *arity marker* part (`1` for an
+    `(n, d)` batch, `0` for a 1-D batch) to the additive parts; `compute` only asks whether it is
+    non-zero.  The marker is a counter, not a sufficient statistic (see `C12.mse_arity_marker_witness`). -/
+def withMarker (two : Bool) (p : Except Err Parts) : Except Err Parts :=
+  p.map (· ++ [[if two then 1 else 0]])
+
 /-- a multi-task batch: `nt` task rows of input, target and (optional) weight. -/
 structure TaskBatch where
   x : Mat
